@@ -13,6 +13,7 @@ import (
 // Witness is a concrete input for the real command-line tools, with the behaviour the property demands.
 type Witness struct {
 	Files  map[string]string `json:"files"`
+	Links  map[string]string `json:"symlinks,omitempty"` // name -> link target (created after the files)
 	Env    map[string]string `json:"env,omitempty"`
 	RawEnv []string          `json:"raw_env,omitempty"` // environment entries passed verbatim (may lack "=")
 	Cmd    []string          `json:"cmd"`    // first element: bkl | bkld | bkli | bklr
@@ -69,6 +70,12 @@ func runWitness(scratch string, w *Witness, idx int) witnessResult {
 		p := filepath.Join(dir, name)
 		os.MkdirAll(filepath.Dir(p), 0o755)
 		os.WriteFile(p, []byte(content), 0o644)
+	}
+	for name, target := range w.Links {
+		p := filepath.Join(dir, name)
+		os.MkdirAll(filepath.Dir(p), 0o755)
+		os.Remove(p)
+		os.Symlink(target, p)
 	}
 	secs := w.Secs
 	if secs == 0 {
